@@ -1322,6 +1322,166 @@ func genRange(r *Rng, p *profile.Profile, exact bool) string {
 	}
 }
 
+// ---- unit grid: every range form × unit pair, label values around multiples of the coarser unit
+
+type unitDef struct {
+	label  string // unit string carried by the label (what NumLabelUnits reports)
+	filter string // spelling used in the filter expression
+	factor int64  // in units of the family's finest unit
+	family int    // 0 memory, 1 time, 2 none/unknown
+}
+
+var gridUnits = []unitDef{
+	{"bytes", "b", 1, 0}, {"kb", "kb", 1 << 10, 0}, {"mb", "MB", 1 << 20, 0},
+	{"ns", "ns", 1, 1}, {"us", "us", 1000, 1}, {"ms", "ms", 1000000, 1}, {"s", "s", 1000000000, 1},
+	{"", "", 1, 2}, {"foo", "foo", 1, 2},
+}
+
+// genUnitGrid builds a profile whose samples carry one numeric label each (key "q", unit of the
+// chosen label unit; a second key "z" without unit on some samples) with values AT, just BELOW,
+// just ABOVE and HALFWAY between multiples of the coarser of (label unit, filter unit), and a
+// tagfocus/tagignore range expression in one of the forms a, a:, :a, a:b whose bounds are such
+// multiples (or neighbours) written in the filter unit. Unit pairs: same, filter finer, filter
+// coarser, unknown / none, cross-family.
+func genUnitGrid(r *Rng) (*profile.Profile, string, string) {
+	lu := gridUnits[r.Intn(len(gridUnits))]
+	var fu unitDef
+	pair := ""
+	switch r.Intn(6) {
+	case 0:
+		fu, pair = lu, "same"
+	case 1, 2: // same family, different unit (coarser twice as often: that is where fractions arise)
+		var cands []unitDef
+		for _, u := range gridUnits {
+			if u.family == lu.family && u.label != lu.label && lu.family != 2 {
+				cands = append(cands, u)
+			}
+		}
+		if len(cands) == 0 {
+			fu, pair = lu, "same"
+		} else {
+			fu = cands[r.Intn(len(cands))]
+			for k := 0; k < 2 && fu.factor < lu.factor; k++ { // bias towards a coarser filter unit
+				fu = cands[r.Intn(len(cands))]
+			}
+			pair = "filter-finer"
+			if fu.factor > lu.factor {
+				pair = "filter-coarser"
+			}
+		}
+	case 3:
+		fu, pair = gridUnits[7+r.Intn(2)], "filter-unit-none-or-unknown"
+	default:
+		fu = gridUnits[r.Intn(7)]
+		pair = "cross-family-or-random"
+		if fu.family == lu.family {
+			pair = "same-family-random"
+		}
+	}
+	// k: how many label units make one filter unit (>=1) or the reverse
+	num, den := fu.factor, lu.factor // filter value f corresponds to f*num/den label units
+	if fu.family != lu.family || fu.family == 2 {
+		num, den = 1, 1
+	}
+	toLabel := func(f int64) int64 { // filter-unit quantity in label units (rounded down)
+		return f * num / den
+	}
+	step := num / den // label units per filter unit when the filter unit is coarser
+	if step < 1 {
+		step = 1
+	}
+	fstep := den / num // filter units per label unit when the filter unit is finer
+	if fstep < 1 {
+		fstep = 1
+	}
+	m := int64(r.Intn(6)) - 2 // base multiple, also negative and zero
+	var vals []int64
+	if num >= den { // filter coarser or equal: label values around multiples of `step`
+		b := toLabel(m)
+		vals = []int64{b, b - 1, b + 1, b + step/2, b + step - 1, b + step, b - step, b + 2*step, b - step/2}
+	} else { // filter finer: label values m, m±1; the filter bounds get the fractions
+		vals = []int64{m, m - 1, m + 1, m + 2, 0, -m}
+	}
+	p := &profile.Profile{SampleType: []*profile.ValueType{{Type: "samples", Unit: "count"}}}
+	mp := &profile.Mapping{ID: 1, Start: 0x400000, Limit: 0x480000, File: "/nonexistent/bin/prog"}
+	fn := &profile.Function{ID: 1, Name: "main", SystemName: "main", Filename: "m.go"}
+	loc := &profile.Location{ID: 1, Mapping: mp, Address: 0x400010, Line: []profile.Line{{Function: fn, Line: 1}}}
+	p.Mapping, p.Function, p.Location = []*profile.Mapping{mp}, []*profile.Function{fn}, []*profile.Location{loc}
+	for i, v := range vals {
+		sm := &profile.Sample{Location: []*profile.Location{loc}, Value: []int64{int64(i + 1)},
+			NumLabel: map[string][]int64{"q": {v}}}
+		if lu.label != "" {
+			sm.NumUnit = map[string][]string{"q": {lu.label}}
+		}
+		if r.Chance(25) {
+			sm.NumLabel["z"] = []int64{toLabel(m)}
+		}
+		if r.Chance(15) { // a second value under the same key
+			sm.NumLabel["q"] = append(sm.NumLabel["q"], vals[r.Intn(len(vals))])
+			if lu.label != "" {
+				sm.NumUnit["q"] = append(sm.NumUnit["q"], lu.label)
+			}
+		}
+		p.Sample = append(p.Sample, sm)
+	}
+	p.Sample = append(p.Sample, &profile.Sample{Location: []*profile.Location{loc}, Value: []int64{100}})
+	// bounds in filter units
+	fb := func() int64 {
+		if num >= den {
+			return m + int64(r.Intn(3)) - 1 + int64(r.Intn(2))*int64(r.Intn(2)) // m-1 .. m+2, mostly m-1..m+1
+		}
+		x := m*fstep + []int64{0, 0, 1, -1, fstep / 2, fstep, -fstep}[r.Intn(7)]
+		return x
+	}
+	a, b := fb(), fb()
+	if r.Chance(50) {
+		a = m
+		if num < den {
+			a = m * fstep
+		}
+	}
+	if b < a && r.Chance(80) {
+		a, b = b, a
+	}
+	lit := func(v int64, u string) string {
+		s := fmt.Sprint(v)
+		if v >= 0 && r.Chance(15) {
+			s = "+" + s
+		}
+		return s + u
+	}
+	var expr, form string
+	switch r.Intn(5) {
+	case 0, 1:
+		expr, form = lit(a, fu.filter), "a"
+	case 2:
+		expr, form = lit(a, fu.filter)+":", "a:"
+	case 3:
+		expr, form = ":"+lit(a, fu.filter), ":a"
+	default:
+		u2 := fu.filter
+		if r.Chance(30) && fu.family != 2 { // second bound in another unit of the family
+			for _, u := range gridUnits {
+				if u.family == fu.family && r.Chance(40) {
+					b = b * fu.factor / u.factor
+					u2 = u.filter
+					break
+				}
+			}
+		}
+		expr, form = lit(a, fu.filter)+":"+lit(b, u2), "a:b"
+	}
+	switch r.Intn(4) {
+	case 0:
+		expr = "q=" + expr
+	case 1:
+		if r.Chance(30) {
+			expr = "z=" + expr
+		}
+	}
+	return p, expr, "grid:" + pair + ":" + form
+}
+
 func genTagFilter(r *Rng, p *profile.Profile, boundary bool) string {
 	keys := keyCands(p)
 	key := ""
@@ -1470,7 +1630,7 @@ func runC06Case(c *Ctx, cs c06Case) {
 }
 
 func runC06(c *Ctx) {
-	c.Res.Rule = "profiles with inlined multi-line locations, shared locations, unsymbolized locations, empty stacks, mapping files and labels with units; expressions from a grammar (literal, anchored, alternation, class, substring, match-all, match-none, case-insensitive; numeric ranges a, a:, :b, a:b with signs and units, key=…); streams: name filters (all 16 on/off combinations of focus/ignore/hide/show), focus=R/ignore=R partition, show_from (main stream = inputs satisfying the hypothesis of showFrom_spec_partial, the rest on the known-finding stream), tagshow/taghide, FilterSamplesByTag with label predicates, measurement.Scale, `pprof -proto` with 1–4 of the 9 filter options, and `pprof -top` with and without -relative_percentages (which total the header reports). non-trivial = some expression of the case matches at least one but not all locations in use (name/show_from/cli), some but not all label keys (tags), or the predicate selects some but not all samples (bytag); distinct by options + canonical profile"
+	c.Res.Rule = "profiles with inlined multi-line locations, shared locations, unsymbolized locations, empty stacks, mapping files and labels with units; expressions from a grammar (literal, anchored, alternation, class, substring, match-all, match-none, case-insensitive; numeric ranges a, a:, :b, a:b with signs and units, key=…); streams: name filters (all 16 on/off combinations of focus/ignore/hide/show), focus=R/ignore=R partition, show_from (main stream = inputs satisfying the hypothesis of showFrom_spec_partial, the rest on the known-finding stream), tagshow/taghide, FilterSamplesByTag with label predicates, measurement.Scale, `pprof -proto` with 1–4 of the 9 filter options (plus a unit grid for tagfocus/tagignore: range forms a, a:, :a, a:b × unit pairs same/finer/coarser/none/unknown/cross-family × label values at, just below, just above and halfway between multiples of the coarser unit), and `pprof -top` with and without -relative_percentages (which total the header reports). non-trivial = some expression of the case matches at least one but not all locations in use (name/show_from/cli), some but not all label keys (tags), or the predicate selects some but not all samples (bytag); distinct by options + canonical profile"
 	if c.Replay != "" {
 		var cs c06Case
 		if err := c.LoadReplay(&cs); err != nil {
@@ -1606,10 +1766,26 @@ func runC06(c *Ctx) {
 		return
 	}
 	defer os.RemoveAll(dir)
-	nCli := 420 * c.Scale
+	nGrid := 240 * c.Scale
+	nCli := 420*c.Scale + nGrid
 	cases := make([]c06Case, nCli)
 	profs := make([]*profile.Profile, nCli)
 	for i := range cases {
+		if i >= nCli-nGrid { // unit grid: range form × unit pair × values around unit multiples
+			p, expr, tag := genUnitGrid(r)
+			var buf bytes.Buffer
+			p.Write(&buf)
+			p, err = profile.ParseData(buf.Bytes())
+			if err != nil {
+				c.Res.HarnessError = "generated profile does not round-trip: " + err.Error()
+				return
+			}
+			opt := []string{"tagfocus", "tagignore"}[i%2]
+			cases[i] = c06Case{Kind: "cli", Stream: "main", Profile: Canon(p), Opts: map[string]string{opt: expr}}
+			profs[i] = p
+			c.Res.Hit("cli:" + tag)
+			continue
+		}
 		p := genC06Profile(r, true)
 		boundary := i%3 == 2 // tag range with bounds equal to label values of the profile
 		for k := 0; boundary && k < 20 && len(keyCands(p)) == 0; k++ {
